@@ -79,6 +79,12 @@ def corr_status(x, y):
     """'undef' (a constant series), 'one' (|rho| = 1 exactly) or 'ok'."""
     if len(x) < 2 or is_const(x) or is_const(y):
         return "undef"
+    if len(x) > 16:
+        # exactness only matters next to |rho| = 1; long generic series are
+        # classified numerically first (Fractions of 300 floats are slow)
+        r = np.corrcoef(np.asarray(x, float), np.asarray(y, float))[0, 1]
+        if np.isfinite(r) and 1.0 - abs(r) > 1e-6:
+            return "ok"
     sxx, syy, sxy = exact_moments(x, y)
     if sxx == 0 or syy == 0:
         return "undef"
@@ -404,7 +410,7 @@ def exact_uniform_symbols(values, lo, hi, nbins):
     return out
 
 
-def uniform_mi_matrix(rows_a, rows_b, nbins, exact=False):
+def uniform_mi_matrix(rows_a, rows_b, nbins, exact=False, tol=1e-4):
     """MI[i, j] between series rows_a[i] and rows_b[j], equal-width bins over
     the common range.  Returns (matrix, ok) - ok False when some bin
     assignment depends on rounding in a way that changes a partition, or the
@@ -419,7 +425,7 @@ def uniform_mi_matrix(rows_a, rows_b, nbins, exact=False):
             if exact:
                 out.append(exact_uniform_symbols(r, lo, hi, nbins))
                 continue
-            sym, amb = uniform_symbols(r, lo, hi, nbins)
+            sym, amb = uniform_symbols(r, lo, hi, nbins, tol)
             if amb and not partition_safe(r, sym, amb, lo, hi, nbins):
                 return None, False
             out.append(canonical(sym, r) if amb else sym)
@@ -518,3 +524,65 @@ def _uniform(sym, b):
     for s in sym:
         c[s] = c.get(s, 0) + 1
     return len(c) == b and len(set(c.values())) == 1
+
+
+# ---------------------------------------------------------------------------
+# vectorised variants for long series (same definitions; cross-checked
+# against the loop versions by the scale family of the check)
+
+def quantile_symbols_np(x, bins):
+    x = np.asarray(x, float)
+    M = len(x)
+    step = -(-M // bins)
+    edges = np.sort(x)[::step]
+    return np.searchsorted(edges, x, side="right") - 1, len(edges)
+
+
+def mi_from_symbols_np(a, b):
+    a, b = np.asarray(a), np.asarray(b)
+    n = len(a)
+    ua, ia = np.unique(a, return_inverse=True)
+    ub, ib = np.unique(b, return_inverse=True)
+    joint = np.zeros((len(ua), len(ub)))
+    np.add.at(joint, (ia, ib), 1.0)
+    pa, pb = joint.sum(axis=1), joint.sum(axis=0)
+    nz = joint > 0
+    return float((joint[nz] / n * np.log(
+        joint[nz] * n / np.outer(pa, pb)[nz])).sum())
+
+
+def binned_mi_lagfunc_np(data, tau_max, bins):
+    data = np.asarray(data, float)
+    T, N = data.shape
+    M = T - tau_max
+    sym = {(i, s): quantile_symbols_np(data[s:s + M, i], bins)[0]
+           for i in range(N) for s in range(tau_max + 1)}
+    L = np.zeros((N, N, tau_max + 1))
+    for i in range(N):
+        for j in range(N):
+            for tau in range(tau_max + 1):
+                L[i, j, tau] = mi_from_symbols_np(sym[(i, tau_max - tau)],
+                                                  sym[(j, tau_max)])
+    return L
+
+
+def pp_mi_lagfunc_np(data, tau_max, bins):
+    data = np.asarray(data, float)
+    T, N = data.shape
+    M = T - 2 * tau_max
+    sym = {}
+    for i in range(N):
+        for s in range(2 * tau_max + 1):
+            a, b = quantile_symbols_np(data[s:s + M, i], bins)
+            cnt = np.bincount(a, minlength=b)
+            ok = b >= 2 and len(cnt) == b and cnt.min() == cnt.max()
+            sym[(i, s)] = (a, b, ok)
+    C = np.full((2 * tau_max + 1, N, N), NAN)
+    for t in range(2 * tau_max + 1):
+        for i in range(N):
+            a, ba, oka = sym[(i, tau_max)]
+            for j in range(N):
+                b, bb, okb = sym[(j, t)]
+                if oka and okb and ba == bb:
+                    C[t, i, j] = mi_from_symbols_np(a, b) / math.log(ba)
+    return C
